@@ -34,7 +34,8 @@ type c14Scenario struct {
 	StartVal  bool        `json:"start_with_val"`
 	IOHandler bool        `json:"io_on_handler"`
 	IOPreSub  string      `json:"io_preset_subscribe_on,omitempty"` // "" | same | closed
-	Restart   string      `json:"redundant_start,omitempty"`        // "", "Start", "StartWithVal": called again on the running target
+	Delegate  bool        `json:"target_delegates_to_sub_generator,omitempty"`
+	Restart   string      `json:"redundant_start,omitempty"` // "", "Start", "StartWithVal": called again on the running target
 	RestartD  int         `json:"redundant_start_delay_yields,omitempty"`
 	LateStart int         `json:"target_started_after_n_yields,omitempty"` // callers may queue requests before the target runs
 	Gated     bool        `json:"callers_wait_for_IsStarted,omitempty"`    // StartWithVal runs concurrently with callers that poll IsStarted()
@@ -97,6 +98,8 @@ func genC14(t *simrt.Tape, tier string) Scenario {
 			sc.LateStart = 20 + t.Choose(30)
 		}
 	}
+	// the target is itself a caller: between two YieldRefs it asks a sub-generator (YieldFrom)
+	sc.Delegate = t.Bool(1, 4)
 	for i := 0; i < nc; i++ {
 		c := c14Caller{Kind: []string{"cor", "cor", "do"}[t.Choose(3)]}
 		n := 1 + t.Choose(maxS)
@@ -138,9 +141,25 @@ func (sc *c14Scenario) Run(s *simrt.Sim) {
 	}
 	var target *fpgo.CorDef[int]
 	targetReturned := false
+	var subGen *fpgo.CorDef[int]
+	if sc.Delegate {
+		subGen = fpgo.CorNewGenerics[int](func() {
+			for k := 0; k < R; k++ {
+				subGen.YieldRef(600000 + k)
+				s.Yield()
+			}
+		})
+		s.Go("subgen-starter", func() { subGen.Start() })
+	}
 	target = fpgo.CorNewGenerics[int](func() {
 		prev, sum := -1, 0
 		for k := 0; k < R; k++ {
+			if sc.Delegate {
+				op := h.Do("target", "YieldFrom-subgen", 700000+k, func() (interface{}, error) { return target.YieldFrom(subGen, 700000+k), nil })
+				if op.Panic == "" && op.Val != 600000+k {
+					sc.extra = append(sc.extra, Violation{Clause: "pairing", Fingerprint: "delegating-target-wrong-answer", Detail: fmt.Sprintf("the target asked its sub-generator for the %d-th time and got %v, want %d", k, op.Val, 600000+k)})
+				}
+			}
 			var y int
 			switch sc.Shape {
 			case "fixed":
